@@ -16,6 +16,14 @@ CHECKS = {
              'Any sanitizer report, undocumented exception type, or reproducible non-termination is a violation.',
         note='Trusted: clang ASan/UBSan (object-size and nonnull-attribute sub-checks excluded, see DESIGN §3). Red-zone limits apply; only paths the corpus and mutations reach are covered. '
              'continue-after-fatal-error is documented as undetermined behaviour and is excluded from the oracle; parameter-entity expansion is not bounded (see C19 finding).'),
+    'C18': dict(
+        category='fault_enumeration', design_ref='DESIGN.md §4 C18',
+        technique='runtime monitoring: ledger MemoryManager (exact alloc/free bookkeeping, per parser and global) + LeakSanitizer, over an enumeration of every way a parse can end',
+        text='For each (document, API, validation) combination the parse is run once to count callbacks and progressive steps; then an application exception (SAXException, std::runtime_error, int) '
+             'is thrown from the k-th callback for every k (capped at 120/400, sampled beyond) and progressive parses are abandoned after every step with and without parseReset, with the parser '
+             're-used afterwards in a quarter of the cases; DOM documents are adopted and outlive the parser. After destroying the objects the parser\'s ledger must be empty and must never have '
+             'been handed a foreign block; the global ledger must be empty after Terminate; LeakSanitizer runs at exit; Initialize/Terminate cycles (nested 0-3 deep) each get their own ledger.',
+        note='Trusted: the ledger (hash set of live blocks under a mutex) and LeakSanitizer. Only allocations routed through MemoryManager are attributed to a manager.'),
     'C15': dict(
         category='exploration', design_ref='DESIGN.md §4 C15',
         technique='runtime monitoring: differential oracle over operation histories (n-th operation on a used parser vs the same operation on a fresh parser), under ASan+UBSan',
